@@ -1,7 +1,9 @@
 #!/bin/sh
-# tryseed.sh <seed-or-refactoring-name> <PID>... : apply the patch to /repo, run the quick checks, revert
+# tryseed.sh <seed-or-refactoring-name> <PID>... : apply the patch to a scratch copy of /repo/src, run the quick checks there
 n=$1; shift
 d=/verif/seeded/$n; [ -d $d ] || d=/verif/refactorings/$n
-git -C /repo apply $d/patch.diff || { echo "PATCH FAILED"; exit 2; }
-for p in "$@"; do (cd /verif && /venv/bin/python -m dtverif check $p --tier quick | grep -E "^FINDING|^ANALYSIS|^CHECK|Traceback" | cut -c1-420); done
-git -C /repo checkout -- .; git -C /repo clean -fdq src
+t=$(mktemp -d /tmp/dtv_try.XXXXXX)
+cp -r /repo/src $t/src
+patch -p1 -s --fuzz=3 -d $t -i $d/patch.diff || { echo "PATCH FAILED"; rm -rf $t; exit 2; }
+for p in "$@"; do (cd /verif && DTVERIF_REPO=$t DTVERIF_OUT=$t/out /venv/bin/python -m dtverif check $p --tier quick | grep -E "^FINDING|^ANALYSIS|^CHECK|Traceback" | cut -c1-420); done
+rm -rf $t
